@@ -277,8 +277,8 @@ pub fn check(rep: &Report) {
     rep.enumerate("tiny-exhaustive", false, move |p, n| tiny(p, n, cap), run);
     rep.list("all-65536-colours", all_colours(), run);
     // thorough: larger images, but bounded so that the tier stays within minutes (cost grows with the area)
-    let maxdim = rep.tier.n(64, 128) as usize;
-    rep.random("rle16", rep.tier.n(120_000, 3_000_000), 220, |s| decode_rle16(s, maxdim), run);
+    let maxdim = rep.tier.n(64, 96) as usize;
+    rep.random("rle16", rep.tier.n(120_000, 1_500_000), 220, |s| decode_rle16(s, maxdim), run);
     rep.random("planar32", rep.tier.n(60_000, 1_500_000), 200, |s| decode_planar(s, maxdim), run);
     rep.random("raw", rep.tier.n(20_000, 500_000), 64, |s| decode_raw(s, maxdim), run);
     rep.require("rle16", "multi-kind", 1000);
